@@ -106,6 +106,13 @@ CLAIMS = {
                      "chunkings); each construction is replayed through 11 containers in 1D (incl. dask in every chunking) and 5 in ND and "
                      "compared with the specification's state; xarray / pandas / Geant4 conversions of the PhystIO subjects round-tripped",
                 technique="TLA+ spec PhystContainers (+HistND, PhystIO) + TLC; container/chunking fan-out replay against the spec state"),
+    "C20": dict(spec="PhystPlot", design="5/C20",
+                text="expected marks (bars, points, steps, 2D cells, squared error bars, tick positions) are computed by TLC in exact rationals "
+                     "and carried on the transition labels; PlotIsPure is an action property; each Plot transition is executed on the "
+                     "matplotlib (Agg) / plotly / ascii backend and the extracted marks, labels and the histogram snapshot are compared; "
+                     "wrong dimension / kind / backend must be refused; rendering to pixels is trusted to the backend",
+                technique="TLA+ spec PhystPlot (exact mark tables) + TLC; mark-level conformance replay",
+                note="TLC and the adapters' mark extraction from matplotlib artists / plotly traces / stdout; pixel rendering is outside the claim"),
 }
 
 PENDING = {}
